@@ -50,6 +50,8 @@ PART_MESHES = {
     "hexa8_square": dict(kind="poly", et="HEXA8", poly="square", h=0.5, dim=3, layers=2, ne=12, quick=True),
     "prism6_quad": dict(kind="poly", et="PRISM6", poly="quad", h=0.5, dim=3, layers=1, ne=14, quick=True),
     "mixed3d": dict(kind="mixed", dim=3, h=0.5, order=1, ne=18, quick=True),
+    # a mesh read from a file that contains one zero-area triangle (three collinear grid nodes): the library drops it as ill-formed
+    "tri3_file_sliver": dict(kind="sliver", nx=4, ny=3, dim=2, ne=24, quick=True),
     # the documented unit-conversion factor of the mesh getters (coordinates x coef), for the whole mesh and for its parts alike
     "tri3_quad_coef": dict(kind="poly", et="TRI3", poly="quad", h=0.5, dim=2, ne=14, quick=True, coef=2.5),
     "hexa8_square_coef": dict(kind="poly", et="HEXA8", poly="square", h=0.5, dim=3, layers=2, ne=12, quick=True, coef=0.01),
@@ -104,7 +106,8 @@ def cases(tier, seed):
         if tier == "quick" and not spec["quick"]:
             continue
         ne = spec["ne"]
-        for nproc in range(1, ne + 2):  # ne + 1: the partitioner has to refuse
+        # ne + 1: the partitioner has to refuse (not asked of the file mesh: its dropped element still counts for the partitioner)
+        for nproc in range(1, ne + (1 if spec["kind"] == "sliver" else 2)):
             out.append({"kind": "partition", "mesh": name, "Nproc": nproc, "ne": ne})
     lists = [list(t) for n in (1, 2, 3) for t in itertools.product(LETTERS, repeat=n)]
     for name in (MERGE_QUICK if tier == "quick" else MERGE_MESHES):
@@ -160,6 +163,36 @@ def _partition(name, nproc):
     mesher = Mesher()
     mesher._Init_gmsh("occ")
     try:
+        if spec["kind"] == "sliver":
+            import os
+            import tempfile
+
+            nx, ny = spec["nx"], spec["ny"]
+            nid = lambda i, j: j * (nx + 1) + i + 1  # noqa: E731
+            pts = [(i, j) for j in range(ny + 1) for i in range(nx + 1)]
+            tris = [(nid(0, 0), nid(1, 0), nid(2, 0))]  # first element of the file: zero area
+            for j in range(ny):
+                for i in range(nx):
+                    a, b, c, d_ = nid(i, j), nid(i + 1, j), nid(i + 1, j + 1), nid(i, j + 1)
+                    tris += [(a, b, c), (a, c, d_)]
+            tmpd = tempfile.mkdtemp(prefix="c20_")
+            path = os.path.join(tmpd, "grid_with_sliver.msh")
+            with open(path, "w") as f:
+                f.write("$MeshFormat\n2.2 0 8\n$EndMeshFormat\n")
+                f.write(f"$Nodes\n{len(pts)}\n")
+                for k_, (x, y) in enumerate(pts):
+                    f.write(f"{k_ + 1} {float(x)} {float(y)} 0.0\n")
+                f.write(f"$EndNodes\n$Elements\n{len(tris)}\n")
+                for k_, t in enumerate(tris):
+                    f.write(f"{k_ + 1} 2 2 1 1 {t[0]} {t[1]} {t[2]}\n")
+                f.write("$EndElements\n")
+            try:
+                gmsh.open(path)
+                return mesher._Mesh_Get_Meshes(nproc)
+            finally:
+                import shutil
+
+                shutil.rmtree(tmpd, ignore_errors=True)
         if spec["kind"] == "poly":
             et = ElemType[spec["et"]]
             h = spec["h"]
